@@ -84,7 +84,7 @@ def token_listing(s: str, dialect: str = "en") -> list[list[int]]:
 
 
 def record(name: str, s: str, dialect: str = "en", mode: str = "collect", nid0: int = 0, compile_: bool = True,
-           uri: str = "u", listing: bool = False) -> dict:
+           uri: str = "u", listing: bool = False, iff: bool = False) -> dict:
     """One execution of Parser.parse (+ Compiler.compile) on the string source s, as a trace record."""
     idg = IdGenerator()
     idg._id_counter = nid0
@@ -140,7 +140,7 @@ def record(name: str, s: str, dialect: str = "en", mode: str = "collect", nid0: 
     ev = b.events
     if ev and ev[0] and ev[0][0] == ["S", "GherkinDocument"]:
         ev = [ev[0][1:]] + ev[1:]
-    rec.update(ok=ok, toks=b.toks, events=ev, ast=ast, errs=errs, pickles=pk, exc=exc or "", compiled=int(bool(compile_)), pickles_again=pk if pk_again is None else pk_again,
+    rec.update(ok=ok, toks=b.toks, events=ev, ast=ast, errs=errs, pickles=pk, exc=exc or "", compiled=int(bool(compile_)), iff=int(bool(iff)), pickles_again=pk if pk_again is None else pk_again,
                nid_after=idg._id_counter, ops=matcher.ops,
                listing=token_listing(s, dialect) if listing else [])
     return rec
